@@ -70,10 +70,15 @@ class Gen:
     def uniform(self, lo=0.0, hi=1.0, size=None):
         return lo + (hi - lo) * self._d('uniform', size)
 
-    def integers(self, hi, *a, **k):
+    def integers(self, low, high=None, *a, **k):
+        # numpy.random.Generator.integers(low, high=None): [0, low) or [low, high); an empty range is an error
+        lo, hi = (0, low) if high is None else (low, high)
+        clo, chi = core.const_value(lift(lo)), core.const_value(lift(hi))
+        if clo is not None and chi is not None and chi <= clo:
+            raise ValueError('low >= high')
         v = self._d('integers')
         v.is_int = True
-        core.side(z3.And(v.t >= 0, v.t < lift(hi), v.t == z3.ToReal(z3.ToInt(v.t))))
+        core.side(z3.And(v.t >= lift(lo), v.t < lift(hi), v.t == z3.ToReal(z3.ToInt(v.t))))
         return v
 
     def choice(self, arr):
